@@ -17,6 +17,7 @@ import Driver.C19
 import Driver.C20
 import Driver.C05
 import Driver.C18
+import Driver.C15
 open Lean
 
 def dispatch (p op : String) (c i : Json) : Except String (Json × String) :=
@@ -40,6 +41,7 @@ def dispatch (p op : String) (c i : Json) : Except String (Json × String) :=
   | "C20" => D20.handle op c i
   | "C05" => D05.handle op c i
   | "C18" => D18.handle op c i
+  | "C15" => D15.handle op c i
   | _ => throw s!"unknown property {p}"
 
 def handleLine (line : String) : String :=
